@@ -716,6 +716,11 @@ impl Kanata {
         self.hscroll_state = None;
         self.move_mouse_state_vertical = None;
         self.move_mouse_state_horizontal = None;
+        // A movement held back for diagonal smoothing would otherwise be flushed by the first
+        // movement of the new configuration, and a movemouse-speed key held through the reload
+        // would keep scaling all later movement: its release handler is gone.
+        self.movemouse_buffer = None;
+        self.move_mouse_speed_modifiers.clear();
         // Pending on-idle / hold-for-duration operations refer to virtual keys of the previous
         // configuration by coordinate.
         self.waiting_for_idle.clear();
